@@ -120,7 +120,11 @@ func oracleC05(r *Result) {
 			continue
 		}
 		if bears && !verifies {
-			r.violate("C05 accepted-with-bad-signature", "C05:sso:"+v.Binding+":accepted-with-non-verifying-signature:"+reqClass,
+			shape := ""
+			if v.Binding != "redirect" && len(v.Root.Childs(NSDS, "Signature")) > 1 {
+				shape = ":several-signature-elements" // which of several ds:Signature children a receiver looks at is its own business; see known findings
+			}
+			r.violate("C05 accepted-with-bad-signature", "C05:sso:"+v.Binding+":accepted-with-non-verifying-signature:"+reqClass+shape,
 				"a request bearing a non-empty signature value that does not verify is never accepted",
 				fmt.Sprintf("accepted, persisted as %s; sent: %s tamper=%v", ps[0].Snap.ID, t.Sent.Summary, t.Msg.Tamper), t.ID)
 			continue
@@ -218,8 +222,13 @@ func oracleC06(r *Result) {
 			if nb := c.Attr("NotBefore"); nb != "" {
 				tt, ok := parseXSDateTime(nb)
 				if !ok {
-					bad("notbefore-unparseable", "unparseable timestamps are rejected", nb)
-				} else {
+					if tt, ok = parseTimeCommaLenient(nb); ok {
+						bad("notbefore-unparseable:comma-as-decimal-separator", "unparseable timestamps are rejected", nb)
+					} else {
+						bad("notbefore-unparseable", "unparseable timestamps are rejected", nb)
+					}
+				}
+				if ok {
 					if tt.After(t.TReturn) {
 						bad("before-notbefore", "NotBefore <= now", fmt.Sprintf("NotBefore %s, request interval [%s, %s]", nb, t.TInvoke.UTC().Format(tsFmt), t.TReturn.UTC().Format(tsFmt)))
 					}
@@ -231,8 +240,13 @@ func oracleC06(r *Result) {
 			if na := c.Attr("NotOnOrAfter"); na != "" {
 				tt, ok := parseXSDateTime(na)
 				if !ok {
-					bad("notonorafter-unparseable", "unparseable timestamps are rejected", na)
-				} else if !tt.After(t.TInvoke) {
+					if tt, ok = parseTimeCommaLenient(na); ok {
+						bad("notonorafter-unparseable:comma-as-decimal-separator", "unparseable timestamps are rejected", na)
+					} else {
+						bad("notonorafter-unparseable", "unparseable timestamps are rejected", na)
+					}
+				}
+				if ok && !tt.After(t.TInvoke) {
 					bad("at-or-after-notonorafter", "now < NotOnOrAfter", fmt.Sprintf("NotOnOrAfter %s, request interval [%s, %s]", na, t.TInvoke.UTC().Format(tsFmt), t.TReturn.UTC().Format(tsFmt)))
 				}
 			}
